@@ -306,8 +306,13 @@ def native_witness(kinds_dims, n_obs, times, free_sigma, log_scale, seed, filter
             data[0, 0, 0] = np.nan
             data[1, 0, 0] = np.nan
             data[2, n_obs - 1, n_times - 1] = np.nan
-        mk_filter = (lambda d_: getattr(real, filter_cls)(d_)) if filter_cls != 'GaussianMixtureFilter' else (lambda d_: real.GaussianMixtureFilter(d_, n_kernels=2))
-        flt = mk_filter(data)
+        if filter_cls == 'ComposedPopulationFilter':
+            # two Gaussian filters on consecutive blocks of time points: the value is that of one Gaussian filter on all of them (reference)
+            mk_filter = lambda d_: real.GaussianFilter(d_)
+            flt = real.ComposedPopulationFilter([real.GaussianFilter(data[:, :, :1]), real.GaussianFilter(data[:, :, 1:])])
+        else:
+            mk_filter = (lambda d_: getattr(real, filter_cls)(d_)) if filter_cls != 'GaussianMixtureFilter' else (lambda d_: real.GaussianMixtureFilter(d_, n_kernels=2))
+            flt = mk_filter(data)
         n_top = lay.n_top + (n_obs if free_sigma else 0)
         prior = pints.ComposedLogPrior(*[pints.GaussianLogPrior(0.5 + 0.1 * k_, 2.0) for k_ in range(n_top)])
         cov = rng.uniform(-1, 1, (1, lay.ncov_total)) if lay.ncov_total else None
@@ -400,7 +405,7 @@ def end_to_end(rec):
     """bounded run-time contract (never counted as proved): the posterior over every *real* filter class, with and without missing measurements --
     value differences against prior + population density + noise term + the filter's own log-likelihood at the sorted times, evaluateS1 score and
     gradient against central differences of the value (the proof above treats the filter by its contract, C12)"""
-    filters = ['GaussianFilter', 'LogNormalFilter', 'GaussianKDEFilter', 'LogNormalKDEFilter', 'GaussianMixtureFilter']
+    filters = ['GaussianFilter', 'LogNormalFilter', 'GaussianKDEFilter', 'LogNormalKDEFilter', 'GaussianMixtureFilter', 'ComposedPopulationFilter']
     cases = [(f_, miss, free, logs) for f_ in filters for miss in (False, True) for (free, logs) in ((False, False), (True, True))]
 
     def one(case):
@@ -409,7 +414,7 @@ def end_to_end(rec):
         return None if wit is None else '%s%s, %s noise scales, %s noise: %s' % (f_, ' with missing measurements' if miss else '', 'free' if free else 'fixed', 'log-scale' if logs else 'additive', wit['what'])
     rec.native_check('end-to-end[real filters]', ['chi._log_pdfs.PopulationFilterLogPosterior.__call__', 'chi._log_pdfs.PopulationFilterLogPosterior.evaluateS1'] +
                      ['chi._population_filters.%s.compute_sensitivities' % f_ for f_ in filters], cases, one,
-                     '5 filter classes x {complete, missing measurements with different counts per cell} x {fixed additive, free log-scale noise}; Gaussian + pooled population, 2 observables, 3 unsorted times, '
+                     '5 filter classes and a composed filter over two blocks of time points x {complete, missing measurements with different counts per cell} x {fixed additive, free log-scale noise}; Gaussian + pooled population, 2 observables, 3 unsorted times, '
                      '2 simulated individuals (4 for the 2-kernel mixture); gradient vs central differences at one seeded vector; distinct by (filter, missing, noise)', exhaustive=True)
 
 
@@ -420,7 +425,8 @@ def configurations(tier):
     single = [(k, d, nc) for (k, d, nc) in [s_[0] for s_ in c02.compositions('quick') if len(s_) == 1]]
     comps = [(s_,) for s_ in single]
     pairs = [(('P', 2, 0), ('G', 1, 0)), (('G', 1, 0), ('P', 2, 0)), (('P', 1, 0), ('Gn', 1, 0)), (('H', 1, 0), ('Ln', 1, 0)), (('Gn', 1, 0), ('H', 2, 0)),
-             (('P', 1, 0), ('H', 1, 0)), (('CGn', 1, 1), ('P', 1, 0)), (('L', 1, 0), ('G', 1, 0)), (('P', 1, 0), ('P', 1, 0)), (('H', 1, 0), ('H', 1, 0))]
+             (('P', 1, 0), ('H', 1, 0)), (('CGn', 1, 1), ('P', 1, 0)), (('L', 1, 0), ('G', 1, 0)), (('P', 1, 0), ('P', 1, 0)), (('H', 1, 0), ('H', 1, 0)),
+             (('CG', 1, 1), ('CGn', 1, 1)), (('CGn', 1, 1), ('G', 1, 0), ('CG', 1, 1))]          # two covariate-dependent sub-models on different covariate columns
     comps += pairs
     comps += [(('G', 1, 0), ('P', 2, 0), ('Ln', 1, 0)), (('P', 1, 0), ('Gn', 1, 0), ('H', 1, 0)), (('H', 1, 0), ('G', 1, 0), ('P', 1, 0))]
     out = []
